@@ -56,10 +56,22 @@ theorem loops_match :
     receiverLoopBreaks = [] ∧
     providerStartPacket = "if startingPkt.CurrentState == sidecar.StateCreated then startingPkt.ReceiverTicket" ∧
     receiverStartPacket = "startingPkt.ProviderTicket" ∧
+    -- after a failed receive the readers back off, re-create the mailbox IGNORING the result and read again:
+    -- a receive error (`recvErr`) therefore changes nothing in the model
+    providerReaderRetry = ["_ = MailBox.InitAcctMailbox", "continue"] ∧
+    receiverReaderRetry = ["_ = MailBox.InitSidecarMailbox", "continue"] ∧
     resumeRemap = [(sOffered, sCreated)] ∧
     resumeCond = "ticket.Offer.Auto && !ticket.State.IsTerminal()" ∧
     resumePackets = ["provider=false;CurrentState=ticket.State,ReceiverTicket=ticket,ProviderTicket=ticket",
       "provider=true;CurrentState=state,ReceiverTicket=ticket,ProviderTicket=ticket"] := by decide
+
+/-- `clientdb.removeBidTemplate` / `DB.UpdateSidecar` have the shape `removeBidTemplate`/`updateSidecarDB` model: in
+particular a template that is already gone (`ErrBucketNotFound`) is tolerated. -/
+theorem removeBidTemplate_matches :
+    removeBidTemplateShape = ["bidBucket := sidecarBucket.Bucket", "if bidBucket == nil return nil",
+      "if ticketNonce == order.ZeroNonce return nil", "err := bidBucket.DeleteBucket",
+      "if err != bbolt.ErrBucketNotFound return err", "return nil"] ∧
+    updateSidecarTemplateGuard = "ticket.State.IsTerminal() && ticket.Order != nil" := by decide
 
 theorem finReturns_true : finReturns = true := by decide
 
